@@ -32,7 +32,7 @@ CHECKS = {
              "non-file response classes, FileResponse on the symbolic file (numbers unbounded, <=2 range specs, raw Range text <=6/<=7 chars), streams run to "
              "completion, header-derived request attributes (values <=3 Latin-1 chars; names from a recipe list), request bodies (<=3 chunks, "
              "symbolic emptiness), Router/Subpaths/Hosts/Files/Pages/conditional requests. Abstract requests have one value per header name; URL/query "
-             "parsing uses concrete recipes; forms with 323/324/325 parts and JSON with a byte order mark are concrete differential recipes."),
+             "parsing uses concrete recipes; forms with 323/324/325 parts, JSON with a byte order mark and a memory limit passed through the _parse_multipart subclass hook are concrete differential recipes."),
     "C05": dict(
         technique="fork-on-branch symbolic execution of every response class on both interfaces against a scripted server with a protocol monitor: status, header/cookie/body/download-name characters and the FAULT POINT (failing send call, raising producer step, early close) are solver variables",
         design_ref="DESIGN.md §4 C05",
@@ -55,13 +55,13 @@ CHECKS = {
         note="Trusted: z3, CPython, forksym; the vendored posixpath and the virtual tree are validated on every path by re-running the unshimmed "
              "code on real files in a temp directory. One fixed tree with '..name', an index-less directory, a sibling whose name extends the "
              "directory's, '<dir>.html', a unix socket and a symbolic link to an empty directory outside; directory given absolute or relative with a "
-             "later chdir; Pages also mounted below a prefix. Paths: <=5/<=7 free chars plus '/../'+<=6, <=3+'/index.html', <=4+'.html'. "
+             "later chdir; Pages also mounted below a prefix (symbolic jobs with a URL stand-in, plus 40 concrete mount/path recipes on the real URL class). Paths: <=5/<=7 free chars plus '/../'+<=6, <=3+'/index.html', <=4+'.html'. "
              "'<file>/' may be served or 404 (the statement allows both)."),
     "C08": dict(
         technique="z3 regex-language lemmas on the live convertor patterns; fork-on-branch symbolic execution of the real Route/Router over fully symbolic paths (ReShim) against a first-match oracle built from the statement's type languages; decided arithmetic for int/date/decimal conversion and round trip",
         design_ref="DESIGN.md §4 C08",
         note="Trusted: z3 (sequence/regex theory for the lemmas and short-path cross-check), CPython, forksym/ReShim, the text/integer models of "
-             "Decimal, date and UUID (each path's model is re-run on the unshimmed code). Route tables are recipes (also mounted and nested); paths <=8/<=9 "
+             "Decimal, date and UUID (each path's model is re-run on the unshimmed code). Route tables are recipes (also mounted, nested, and serving the same path twice); paths <=8/<=9 "
              "symbolic chars (<= U+2FFFF) plus a 10-char date/decimal segment; int <=6/<=7 digits; decimals <=4+4 digits (plus 30-digit shapes). A date placeholder is taken to "
              "stand only for text that denotes a calendar date."),
     "C09": dict(
@@ -88,7 +88,7 @@ CHECKS = {
         technique="fork-on-branch symbolic execution of the real header mapping (one inductive step per mutator), cookie escaper (live translation table as ITE terms, live regex via ReShim) and redirect encoding over symbolic Unicode characters; z3 decides every character",
         design_ref="DESIGN.md §4 C13",
         note="Trusted: z3, CPython, forksym/ReShim. Header family: pre-state = clean mapping with 0..1 symbolic entries (induction hypothesis), "
-             "names/values <=2/<=3 chars. Cookie names <=2/<=3, values <=3/<=4 chars, full Unicode. Redirect: urllib.parse.quote is replaced by a "
+             "names/values <=2/<=3 chars (also behind 40..240-char concrete texts; emitted lines checked as text and bytes). Cookie names <=2/<=3, values <=3/<=4 chars, full Unicode. Redirect: urllib.parse.quote is replaced by a "
              "percent-encoding model that takes baize's real `safe` argument and is validated against the real quote on every path; targets as str and "
              "as URL object. update() with Headers objects, re-assigned cookie attributes and delete_cookie(name) are covered."),
     "C14": dict(
@@ -111,7 +111,7 @@ CHECKS = {
         design_ref="DESIGN.md §4 C16",
         note="Trusted: z3, CPython, forksym/ReShim; the datetime model (naive local datetimes print timestamp+offset, UTC ones the timestamp) - each "
              "expiry counterexample is replayed in a subprocess under a concrete TZ (fixed offset, or a generated POSIX DST rule: DST zones are a two-valued "
-             "uninterpreted offset function, |expires| <= 150 days). Values <=3/<=4 chars plus backslash shapes, names 1-2 token chars."),
+             "uninterpreted offset function, |expires| <= 150 days). Values <=3/<=4 chars plus backslash shapes, names 1-2 token chars; the line also taken from what a response called as an application (bare / behind one middleware) hands to the server."),
     "C17": dict(
         technique="fork-on-branch symbolic execution of the real (Mutable)MultiMapping/QueryParams/FormData with z3 integer keys and values inside CPython's dict; one inductive step per operation against a list-of-pairs reference model",
         design_ref="DESIGN.md §4 C17",
@@ -124,7 +124,7 @@ CHECKS = {
         note="Trusted: z3, CPython codecs, forksym; the WHATWG parser oracle written in the harness. Symbolic characters cross the encoder's "
              "f-strings as placeholders of the same encoding class (ASCII / non-ASCII), which is sound while the encoder only concatenates and "
              "encodes them. Bounds: data <=3/<=5 chars plus 12- and 300-line shapes, name/id <=2/<=3; charsets utf-8 and latin-1; ASGI streams with a "
-             "producer idling symbolic ticks (0..3 pings in between)."),
+             "producer idling symbolic ticks (0..3 pings in between); a WSGI response object serving a second request (complete runs)."),
     "C03": dict(
         technique="fork-on-branch symbolic execution of the real parse_range with z3 (unbounded LIA integers; ReShim-interpreted regex over symbolic Latin-1 chars)",
         design_ref="DESIGN.md §4 C03",
@@ -140,7 +140,8 @@ CHECKS["C20"] = dict(
     note="Trusted: z3, CPython/asyncio (ASGI on the virtual loop, thread pool = direct call), forksym. Inner applications are a recipe list (every response "
          "class, multi-chunk stream, 1-2 cookies, restart of start_response, raising app); status, a header value, cookie value and body bytes are symbolic "
          "(<=3/<=4 chars), stacks of depth 1..3; body sizes around the relay's 64 KiB block are enumerated; plain-WSGI list/tuple bodies, raw ASGI events with optional keys "
-         "omitted, a FileResponse behind a zero-copy server, two overlapping ASGI requests through one middleware instance.")
+         "omitted, a FileResponse behind a zero-copy server, two overlapping ASGI requests through one middleware instance; the relay's zero-copy reader on a "
+         "symbolic window (file size / position / offset / count <= 300000, <=2 short reads).")
 
 CHECKS["C12"] = dict(
     technique="fork-on-branch symbolic execution of each untrusted-input entry point over short fully symbolic Latin-1 text / byte strings (exact symbolic UTF-8 decoding, URL-sensitive code points materialised for urllib); any exception other than 4xx HTTPException / ClientDisconnect / stream-consumed is a violation",
